@@ -95,6 +95,15 @@ Section PlanP.
     destruct (Nat.eqb c' (s_out st)); [|apply H]. f_equal. apply map_ext. exact H.
   Qed.
 
+  (* in a pure plan every step's output is the step's function of the FINAL operand values *)
+  Lemma step_value_final p s0 : plan_pure p -> forall st, In st p ->
+    s_fn st (map (resolve p s0) (s_args st)) = resolve p s0 (s_out st).
+  Proof.
+    intros [Hnd Hre] st Hin. apply in_split in Hin as (pre & suf & E).
+    rewrite (out_final p s0 Hnd pre st suf E). f_equal. apply map_ext_in. intros a Ha.
+    symmetry. apply (args_final p s0 Hnd Hre pre st suf E a Ha).
+  Qed.
+
   Lemma steps_ext p n : forall s t, (forall c, s c = t c) -> forall c, steps n p s c = steps n p t c.
   Proof.
     induction n as [|n IH]; intros s t H c; cbn [steps]; [apply H|].
